@@ -358,11 +358,12 @@ def _meta_lines(rng, indent, p=0.3):
     return out
 
 
-def gen_ledger(rng, idx):
+def gen_ledger(rng, idx, pools=None):
     """-> (text, info). A ledger that loads without errors: every directive type, costs, prices,
-    tags, links, metadata, several currencies, all five account types."""
+    tags, links, metadata, several currencies, all five account types.  pools: account names per root (default
+    ROOT_ACCOUNTS; stream F passes NESTED_ACCOUNTS)."""
     accounts = []
-    for root, pool in ROOT_ACCOUNTS.items():
+    for root, pool in (pools or ROOT_ACCOUNTS).items():
         accounts += rng.sample(pool, rng.randint(2, len(pool)))
     for must in ('Assets:Cash', 'Equity:Opening-Balances', 'Income:Gains', 'Expenses:Food'):
         if must not in accounts:
@@ -564,9 +565,9 @@ def gen_ledger(rng, idx):
     return text, hist
 
 
-def write_ledger(rng, idx):
+def write_ledger(rng, idx, pools=None):
     os.makedirs(os.path.join(TMP, 'docs'), exist_ok=True)
-    text, hist = gen_ledger(rng, idx)
+    text, hist = gen_ledger(rng, idx, pools)
     # drop balance assertions that would fail (accounts credited by untracked conversions)
     entries, errors, _ = loader.load_string(text)
     bad = {e.entry.meta['lineno'] for e in errors if getattr(e, 'entry', None) is not None
@@ -1491,6 +1492,81 @@ def print_problems(recs):
 
 
 # --------------------------------------------------------------------------
+# F. JOURNAL whose argument is, character for character, the NAME of an account of the ledger (fix-F).  The argument is a
+# regular expression SEARCHED in the account name whatever the ledger contains: the register of an opened parent account
+# includes its sub-accounts and every look-alike (`Assets:Bank` -> Assets:Bank:Checking, Assets:Bank-Old, Equity:Assets:Bank).
+# Ledgers here open parents AND children AND look-alikes (NESTED_ACCOUNTS); the patterns are read off the Open directives
+# of each generated ledger, never written down here.  Oracles: the SELECT expansion with the pattern as a query parameter,
+# and the register computed from the directives (oracle_journal), through check_ledger_statements.
+
+NESTED_ACCOUNTS = {
+    'Assets': ['Assets:Bank', 'Assets:Bank:Checking', 'Assets:Bank:Savings', 'Assets:Bank-Old', 'Assets:Cash', 'Assets:Cash:Wallet',
+               'Assets:Bank:Checking:Joint', 'Assets:Zeta'],
+    'Liabilities': ['Liabilities:Card', 'Liabilities:Card:Visa', 'Liabilities:Cards', 'Liabilities:Loan'],
+    'Equity': ['Equity:Opening-Balances', 'Equity:Assets:Bank', 'Equity:Other', 'Equity:Other:Expenses:Food'],
+    'Income': ['Income:Job', 'Income:Job:Bonus', 'Income:Gains', 'Income:Gains:Long', 'Income:Jobs'],
+    'Expenses': ['Expenses:Food', 'Expenses:Food:Coffee', 'Expenses:Food:Restaurant', 'Expenses:Foodstuff', 'Expenses:Assets:Cash',
+                 'Expenses:Rent'],
+}
+ACCOUNT_NAME_FROM = [None, 'year = 2020', 'OPEN ON 2020-01-01 CLOSE ON 2020-12-31', 'year = 2020 CLOSE', 'year >= 2020 AND month < 7', 'CLEAR']
+
+
+def ledger_account_names(entries):
+    """-> (names with an Open directive, names some posting is booked on)"""
+    opened = [e.account for e in entries if isinstance(e, data.Open)]
+    posted = {p.account for e in entries if isinstance(e, data.Transaction) for p in e.postings}
+    return opened, posted
+
+
+def account_name_specs(rng, entries):
+    """JOURNAL statements whose pattern is the exact name of an opened account -> [(spec, class)]; class =
+    'contained' (the name is found, as a regular expression, in the name of ANOTHER account that has postings) | 'leaf',
+    or a respelling of such a name that denotes the same / a narrower register ('lower', 'anchored', 'colon')"""
+    opened, posted = ledger_account_names(entries)
+    out = []
+    fs = [None, 'units', 'cost']
+    k = rng.randrange(6)
+    contained = [a for a in opened if any(b != a and re.search(a, b, re.IGNORECASE) for b in posted)]
+    leaves = [a for a in opened if a not in contained]
+    for a in contained + rng.sample(leaves, min(3, len(leaves))):
+        cls = 'contained' if a in contained else 'leaf'
+        for _ in range(2 if cls == 'contained' else 1):
+            k += 1
+            out.append((('J', 'api' if k % 4 == 3 else 'text', a, fs[k % 3], ACCOUNT_NAME_FROM[(k // 3) % len(ACCOUNT_NAME_FROM)]), cls))
+        if cls == 'contained':
+            # without clauses: the register oracle applies
+            out.append((('J', 'text', a, fs[(k + 1) % 3], None), cls))
+            out.append((('JP', a, fs[(k + 2) % 3], 'year = %s', (2020,)), cls))
+    for a in rng.sample(contained, min(3, len(contained))):
+        out.append((('J', 'text', a.lower(), rng.choice(fs), None), 'lower'))
+        out.append((('J', 'text', '^' + a + '$', rng.choice(fs), None), 'anchored'))
+        out.append((('J', 'text', a + ':', rng.choice(fs), rng.choice([None, 'year = 2020'])), 'colon'))
+    seen, uniq = set(), []
+    for spec, cls in out:
+        if spec not in seen:
+            seen.add(spec)
+            uniq.append((spec, cls))
+    return uniq
+
+
+_F_ENTRIES = {}       # path -> loaded directives, filled by run() before the worker processes are forked
+
+
+def check_account_journals(args):
+    """One ledger, account-name JOURNAL specs -> records of check_ledger_statements, each annotated with what the directives
+    say about the pattern: postings on the named account itself / on OTHER accounts whose name matches.  Top level for core.pmap."""
+    path, specs = args
+    recs = check_ledger_statements((path, specs))
+    entries = _F_ENTRIES[path] if path in _F_ENTRIES else loader.load_file(path)[0]
+    for spec, rec in zip(specs, recs):
+        p = spec[1] if spec[0] == 'JP' else spec[2]
+        accs = [pp.account for _, pp in oracle_postings(entries) if re.search(p, pp.account, re.IGNORECASE)]
+        rec['postings_on_named_account'] = sum(1 for a in accs if a == p)
+        rec['postings_on_other_matching_accounts'] = sum(1 for a in accs if a != p)
+    return recs
+
+
+# --------------------------------------------------------------------------
 # shrinking / replay
 
 def _blocks(text):
@@ -1596,8 +1672,8 @@ def run(tier, rng):
     jobs = []
     for li, (path, text) in enumerate(ledgers):
         specs = ledger_specs(rng, per_ledger, thorough, li)
-        for k in range(0, len(specs), 14):
-            jobs.append((path, specs[k:k + 14]))
+        for k in range(0, len(specs), 6):                       # (fix-F) 6 per job: >= 64 jobs, so that core.pmap really forks
+            jobs.append((path, specs[k:k + 6]))
     results = core.pmap(check_ledger_statements, jobs, chunksize=1)
     texts = dict(ledgers)
     status_hist, class_hist, kinds = {}, {}, {}
@@ -1729,7 +1805,70 @@ def run(tier, rng):
                     'every statement vs its SELECT expansion on that connection, vs a connection attached once to the current ledger, '
                     'vs sums / register computed from the directives')
     core.log(f'[C14] E re-attach: {ehist["statement_steps"]} statement steps, {time.time() - t0:.1f}s')
-    cov['evaluations'] = n_a + n_b + n_d + len(key_lists) + ehist['statement_steps']
+
+    # F: JOURNAL '<exact name of an opened account>' on ledgers with opened parents / children / look-alikes (drawn after every
+    # other stream: the streams above see the random numbers they saw before)
+    import random as _random
+    rng_f = _random.Random(rng.getrandbits(64))
+    n_fl = 8 if thorough else 1 if smoke else 3
+    fjobs, fcls, ftexts = [], {}, {}
+    for i in range(n_fl):
+        path, text, _ = write_ledger(rng_f, 900 + i, NESTED_ACCOUNTS)
+        ftexts[path] = text
+        entries_f, _, _ = loader.load_file(path)
+        _F_ENTRIES[path] = entries_f
+        pairs = account_name_specs(rng_f, entries_f)
+        if not thorough and len(pairs) > 40:
+            keep = [pc for pc in pairs if pc[1] == 'contained'][:30]
+            pairs = keep + [pc for pc in pairs if pc not in keep][:10]
+        for spec, cls in pairs:
+            fcls[(path, spec)] = cls
+        specs_f = [spec for spec, _ in pairs]
+        fjobs += [(path, [spec]) for spec in specs_f]           # one statement per job: core.pmap forks from 64 jobs on
+    fres = core.pmap(check_account_journals, fjobs, chunksize=1)
+    fhist = {'ledgers': n_fl, 'statements': 0, 'pattern_class': {}, 'status': {}, 'with_AT': 0, 'with_FROM': 0, 'via_api': 0,
+             'oracle_checked': 0, 'rows_compared': 0, 'statements_whose_register_holds_other_accounts': 0,
+             'postings_on_named_account': 0, 'postings_on_other_matching_accounts': 0, 'named_account_without_own_postings': 0}
+    fkinds = {}
+    fsamples = []
+    for (path, specs_f), recs in zip(fjobs, fres):
+        for spec, r in zip(specs_f, recs):
+            cls = fcls[(path, spec)]
+            fhist['statements'] += 1
+            fhist['pattern_class'][cls] = fhist['pattern_class'].get(cls, 0) + 1
+            fhist['status'][str(r.get('status'))] = fhist['status'].get(str(r.get('status')), 0) + 1
+            fhist['with_AT'] += bool(spec[2] if spec[0] == 'JP' else spec[3])
+            fhist['with_FROM'] += bool(spec[3] if spec[0] == 'JP' else spec[4])
+            fhist['via_api'] += spec[1] == 'api'
+            fhist['oracle_checked'] += bool(r.get('oracle'))
+            fhist['rows_compared'] += r.get('rows') or 0
+            fhist['postings_on_named_account'] += r['postings_on_named_account']
+            fhist['postings_on_other_matching_accounts'] += r['postings_on_other_matching_accounts']
+            fhist['statements_whose_register_holds_other_accounts'] += r['postings_on_other_matching_accounts'] > 0
+            fhist['named_account_without_own_postings'] += cls == 'contained' and r['postings_on_named_account'] == 0
+            if len(fsamples) < 4 and cls == 'contained' and spec[0] == 'J' and spec[1] == 'text':
+                fsamples.append(journal_text(spec[2], spec[3], spec[4]))
+            for kind, why in r['problems']:
+                fkinds.setdefault(kind, []).append((path, spec, why, cls))
+    for kind, items in fkinds.items():
+        path, spec, why, cls = items[0]
+        text = ftexts[path]
+        if kind != 'harness-exception':
+            text = shrink_ledger(text, lambda t: stmt_fails(t, spec, kind), 40)
+        violations.append(core.Violation(
+            kind, f'{kind}: JOURNAL pattern = {"the exact name of an opened account" if cls in ("contained", "leaf") else cls + " respelling of an account name"}: '
+                  f'{spec!r}: {why[:600]} ({len(items)} statements)',
+            {'kind': 'stmt', 'problem': kind, 'spec': list(spec), 'ledger': text, 'why': why},
+            signature=f'{kind}:account-name:{cls}:{spec_class(spec)}'))
+    cov['F_account_name_journals'] = {**fhist, 'samples': fsamples}
+    cov['rule'] += ('; F: JOURNAL whose pattern is the exact name of an account opened in the ledger (parents with sub-accounts, look-alikes, '
+                    'leaves; lower-cased / anchored / colon-terminated respellings), with AT and FROM variants, text and AST: vs the SELECT '
+                    'expansion with the pattern as a parameter and vs the register computed from the directives')
+    core.log(f'[C14] F account-name journals: {fhist["statements"]} statements, {time.time() - t0:.1f}s')
+    for pth in ftexts:
+        if os.path.exists(pth):
+            os.unlink(pth)
+    cov['evaluations'] = n_a + n_b + n_d + len(key_lists) + ehist['statement_steps'] + fhist['statements']
     cov['distinct_nontrivial'] = cov['A_transform']['distinct_results'] + len(class_hist) + n_d
     cov['traces_validated_against_impl'] = n_a + n_d
     cov['samples'] = cov['A_transform'].pop('samples')
